@@ -61,6 +61,15 @@ def run(ctx):
         v = W.stmt["values"][cols.index(col)]
         return W.param(v[1]) if v[0] == "param" else None
 
+    # the record of the assigned address is this write: it must replace whatever row exists for the address
+    conflict = W.stmt["conflict"]
+    full = conflict == "REPLACE"
+    if conflict == "UPSERT" and W.stmt.get("upsert"):
+        up = W.stmt["upsert"]
+        full = up["target"] == ["address"] and {"clientid", "start", "expiry"} <= {c for c, _ in up["set"]} and up.get("where") is None
+    ctx.check(full, "R1", "write-replaces-the-address-row" if full else "write-may-leave-old-row:%s" % conflict, where,
+              "the server's record for the assigned address is the row this statement writes: on a conflict it must overwrite client id, "
+              "start and expiry unconditionally, otherwise the advertised lease outlives (or differs from) the recorded one")
     start, expiry = bound("start"), bound("expiry")
     # returned lease duration
     ret_exp = []
